@@ -91,6 +91,13 @@ class BaseDataType(object):
         return self.__class__.__name__
 
 
+# the escape sequences of the standard that do not stand for a delimiter: hexadecimal data (\Xdddd..\),
+# locally defined ones (\Zdddd..\), character set switches (\Cxxyy\, \Mxxyyzz\) and the formatting
+# commands (\.br\, \.sp 2\, \.in+4\, \.ti-2\, \.sk 3\, \.fi\, \.nf\, \.ce\)
+OTHER_ESCAPE_SEQUENCES = (r'X(?:[0-9A-Fa-f]{2})+|Z[0-9A-Za-z]+|C[0-9A-Fa-f]{4}|M[0-9A-Fa-f]{4}(?:[0-9A-Fa-f]{2})?|'
+                          r'\.(?:br|sp|fi|nf|in|ti|sk|ce) ?[+-]?[0-9]*')
+
+
 class TextualDataType(BaseDataType):
     """
     Base class for textual data types.
@@ -116,6 +123,8 @@ class TextualDataType(BaseDataType):
         greater than :attr:`max_length`
     """
 
+    _escape_letters = 'HNFSTRE'
+
     def __init__(self, value, max_length=32, highlights=None,
                  validation_level=None):
         self.highlights = highlights
@@ -135,7 +144,11 @@ class TextualDataType(BaseDataType):
                 (encoding_chars['REPETITION'], '{esc}R{esc}'.format(esc=escape_char)),)
 
     def _get_escape_char_regex(self, escape_char):
-        return r'(%s[HNFSTRE]%s)|%s' % tuple(3 * [re.escape(escape_char)])
+        esc = re.escape(escape_char)
+        if escape_char.isalnum() or escape_char in '.+- ':
+            # the escape character could itself occur inside those sequences: only the single-letter ones are recognised
+            return r'(%s[%s]%s)|%s' % (esc, self._escape_letters, esc, esc)
+        return r'(%s(?:[%s]|%s)%s)|%s' % (esc, self._escape_letters, OTHER_ESCAPE_SEQUENCES, esc, esc)
 
     def _escape_value(self, value, encoding_chars=None):
         escape_char = encoding_chars['ESCAPE']
